@@ -226,7 +226,11 @@ void World::opMkVar(const Step &s)
 void World::opMkMinterm(const Step &s)
 {
     cur_family = "construct";
-    int fi = pickForest(s.a[0], [](const ForRT &F) { return F.kind() != FK_IDX; });
+    // functions are built directly in an index-set forest only in the C15
+    // profile (so that conversions meet structurally identical nodes that
+    // were not made by a conversion)
+    const bool idxOK = (plan.prop == "C15");
+    int fi = pickForest(s.a[0], [&](const ForRT &F) { return idxOK || F.kind() != FK_IDX; });
     if (fi < 0) { note(OC_SKIP); return; }
     ForRT &F = forests[fi];
     const Dom &D = doms[F.spec.dom].m;
@@ -236,7 +240,7 @@ void World::opMkMinterm(const Step &s)
     Val deflt = defaultOf(F.kind());
     Val val = randomValue(R, F.kind(), ((s.a[3] >> 3) % 5 == 0) ? 3 : (((s.a[3] >> 3) % 5 == 1) ? 4 : 0));
     if (F.kind() == FK_MTB) val = Val::b(true);
-    if (val.inf && F.kind() != FK_EVP) val = defaultOf(F.kind());
+    if (val.inf && F.kind() != FK_EVP && F.kind() != FK_IDX) val = defaultOf(F.kind());
     // KF-C03-1 (known_findings.txt): a minterm whose value is the forest's
     // transparent value builds a malformed graph; only the probe plan
     // (a[5] == 999) goes there
@@ -244,7 +248,7 @@ void World::opMkMinterm(const Step &s)
         switch (F.kind()) {
             case FK_MTI: val = Val::n(3); break;
             case FK_MTR: case FK_EVT: val = Val::r(2.0); break;
-            case FK_EVP: val = Val::n(2); break;
+            case FK_EVP: case FK_IDX: val = Val::n(2); break;
             default: break;
         }
     }
@@ -285,7 +289,8 @@ void World::opMkMinterm(const Step &s)
 void World::opMkColl(const Step &s, bool useMax)
 {
     cur_family = "construct";
-    int fi = pickForest(s.a[0], [](const ForRT &F) { return F.kind() != FK_IDX; });
+    // (collections are not offered for index-set forests: INVALID_OPERATION)
+    int fi = pickForest(s.a[0], [&](const ForRT &F) { return F.kind() != FK_IDX; });
     if (fi < 0) { note(OC_SKIP); return; }
     ForRT &F = forests[fi];
     const Dom &D = doms[F.spec.dom].m;
@@ -302,14 +307,14 @@ void World::opMkColl(const Step &s, bool useMax)
         if (i && R.chance(1, 5)) { const Val keep = ms[i].val; ms[i] = ms[R.below(i)]; ms[i].val = keep; }
         ms[i].val = randomValue(R, F.kind(), vflavour);
         if (F.kind() == FK_MTB) ms[i].val = Val::b(true);
-        if (ms[i].val.inf && F.kind() != FK_EVP) ms[i].val = defaultOf(F.kind());
+        if (ms[i].val.inf && F.kind() != FK_EVP && F.kind() != FK_IDX) ms[i].val = defaultOf(F.kind());
         // KF-C03-1 / KF-C03-2: values equal to the forest's transparent value
         // (0 in MT forests, +infinity in EV+) only in the probe plans
         if (s.a[5] != 999 && ms[i].val.same(defaultOf(F.kind()))) {
             switch (F.kind()) {
                 case FK_MTI: ms[i].val = Val::n(1 + long(i % 5)); break;
                 case FK_MTR: case FK_EVT: ms[i].val = Val::r(0.5 * double(1 + i % 4)); break;
-                case FK_EVP: ms[i].val = Val::n(long(i % 7)); break;
+                case FK_EVP: case FK_IDX: ms[i].val = Val::n(long(i % 7)); break;
                 default: break;
             }
         }
